@@ -157,6 +157,8 @@ pub struct EngineInfo {
     pub stubbed_components: Vec<&'static str>,
     /// crash / hang of a worker is a violation of this property
     pub totality: bool,
+    /// CPU-time limit per case in seconds (hang detector)
+    pub cpu_limit_s: i64,
     pub exhaustive: bool,
 }
 
@@ -176,7 +178,13 @@ pub trait Engine {
         None
     }
     /// like known_finding for a worker crash/hang on case k
-    fn known_finding_crash(&self, _k: u64, _seed: u64, _tier: Tier, _kind: &str) -> Option<&'static str> {
+    fn known_finding_crash(
+        &self,
+        _k: u64,
+        _seed: u64,
+        _tier: Tier,
+        _kind: &str,
+    ) -> Option<&'static str> {
         None
     }
 }
@@ -223,6 +231,9 @@ pub fn catch_sut<T>(f: impl FnOnce() -> T) -> Result<T, String> {
 
 /// Normalise a panic description into a violation class (location only).
 pub fn panic_class(desc: &str) -> String {
+    if desc.starts_with("RNG word budget exceeded") {
+        return "unbounded-loop-rng-word-budget".to_string();
+    }
     let loc = desc.rsplit(" @ ").next().unwrap_or("");
     // strip absolute prefixes so that scratch copies give the same class
     let loc = loc.rsplit("crates/").next().unwrap_or(loc);
@@ -257,8 +268,14 @@ pub fn arm_cpu_timer(secs: i64) {
             libc::signal(libc::SIGPROF, on_sigprof as usize);
         }
         let tv = libc::itimerval {
-            it_interval: libc::timeval { tv_sec: 0, tv_usec: 0 },
-            it_value: libc::timeval { tv_sec: secs, tv_usec: 0 },
+            it_interval: libc::timeval {
+                tv_sec: 0,
+                tv_usec: 0,
+            },
+            it_value: libc::timeval {
+                tv_sec: secs,
+                tv_usec: 0,
+            },
         };
         libc::setitimer(libc::ITIMER_PROF, &tv, std::ptr::null_mut());
     }
@@ -271,6 +288,7 @@ pub fn worker_main(engine: &dyn Engine, tier: Tier, vseed: u64, start: u64, step
     let mut stats = Stats::default();
     let digest = std::env::var("VERIF_DIGEST_OUT").is_ok();
     let mut since_flush = 0u64;
+    let mut with_case = 0u32;
     let mut k = start;
     while k < end {
         {
@@ -279,7 +297,7 @@ pub fn worker_main(engine: &dyn Engine, tier: Tier, vseed: u64, start: u64, step
             let _ = o.flush();
         }
         let seed = case_seed(vseed, info.property, k);
-        arm_cpu_timer(CASE_CPU_LIMIT_S);
+        arm_cpu_timer(info.cpu_limit_s);
         let mut case_stats = Stats::default();
         let r = std::panic::catch_unwind(std::panic::AssertUnwindSafe(|| {
             engine.run_case(k, seed, tier, &mut case_stats)
@@ -316,7 +334,11 @@ pub fn worker_main(engine: &dyn Engine, tier: Tier, vseed: u64, start: u64, step
             Ok(vs) => {
                 stats.inc("cases");
                 for v in vs {
-                    let j = json!({"k": k, "class": v.class, "detail": v.detail, "case": v.case});
+                    // only the first few violations of a worker carry their (possibly
+                    // large) case; the supervisor writes at most a handful of replays
+                    with_case += 1;
+                    let case = if with_case <= 6 { v.case } else { None };
+                    let j = json!({"k": k, "class": v.class, "detail": v.detail, "case": case});
                     let mut o = out.lock();
                     let _ = writeln!(o, "V {}", j);
                     let _ = o.flush();
@@ -352,6 +374,9 @@ pub fn worker_main(engine: &dyn Engine, tier: Tier, vseed: u64, start: u64, step
 // supervisor side
 
 struct W {
+    /// milliseconds since supervisor start of the last line read from this worker
+    /// (stamped by the reader thread, so a busy main loop cannot fake a stall)
+    activity: std::sync::Arc<std::sync::atomic::AtomicU64>,
     child: Child,
     current: Option<u64>,
     last_progress: Instant,
@@ -369,6 +394,8 @@ fn spawn_worker(
     wi: usize,
     gen: u64,
     tx: &mpsc::Sender<(usize, u64, Option<String>)>,
+    activity: std::sync::Arc<std::sync::atomic::AtomicU64>,
+    t0: Instant,
 ) -> Child {
     let exe = std::env::current_exe().expect("current_exe");
     let mut child = Command::new(exe)
@@ -391,6 +418,10 @@ fn spawn_worker(
     std::thread::spawn(move || {
         let r = BufReader::with_capacity(1 << 16, so);
         for line in r.lines() {
+            activity.store(
+                t0.elapsed().as_millis() as u64,
+                std::sync::atomic::Ordering::Relaxed,
+            );
             match line {
                 Ok(l) => {
                     if tx.send((wi, gen, Some(l))).is_err() {
@@ -485,12 +516,28 @@ pub fn supervise(engine: &dyn Engine, tier: Tier, vseed: u64) -> RunOutcome {
     let (tx, rx) = mpsc::channel::<(usize, u64, Option<String>)>();
     let step = workers as u64;
     let mut ws: Vec<W> = (0..workers)
-        .map(|wi| W {
-            child: spawn_worker(prop, tier, vseed, wi as u64, step, n_cases, wi, 0, &tx),
-            current: None,
-            last_progress: Instant::now(),
-            done: false,
-            gen: 0,
+        .map(|wi| {
+            let activity = std::sync::Arc::new(std::sync::atomic::AtomicU64::new(0));
+            W {
+                child: spawn_worker(
+                    prop,
+                    tier,
+                    vseed,
+                    wi as u64,
+                    step,
+                    n_cases,
+                    wi,
+                    0,
+                    &tx,
+                    activity.clone(),
+                    t0,
+                ),
+                activity,
+                current: None,
+                last_progress: Instant::now(),
+                done: false,
+                gen: 0,
+            }
         })
         .collect();
 
@@ -514,6 +561,7 @@ pub fn supervise(engine: &dyn Engine, tier: Tier, vseed: u64) -> RunOutcome {
             }
             break;
         }
+        let mut idle = false;
         match rx.recv_timeout(Duration::from_millis(200)) {
             Ok((wi, gen, msg)) => {
                 if ws[wi].gen != gen {
@@ -577,14 +625,24 @@ pub fn supervise(engine: &dyn Engine, tier: Tier, vseed: u64) -> RunOutcome {
                                 Some(k) => {
                                     crashes.push((
                                         k,
-                                        if code == Some(EXIT_CPU_LIMIT) { "hang" } else { "abort" },
+                                        if code == Some(EXIT_CPU_LIMIT) {
+                                            "hang"
+                                        } else {
+                                            "abort"
+                                        },
                                     ));
                                     let next = k + step;
                                     if next < n_cases {
                                         ws[wi].gen += 1;
                                         let g = ws[wi].gen;
+                                        let act = ws[wi].activity.clone();
+                                        act.store(
+                                            t0.elapsed().as_millis() as u64,
+                                            std::sync::atomic::Ordering::Relaxed,
+                                        );
                                         ws[wi].child = spawn_worker(
                                             prop, tier, vseed, next, step, n_cases, wi, g, &tx,
+                                            act, t0,
                                         );
                                         ws[wi].current = None;
                                         ws[wi].last_progress = Instant::now();
@@ -602,15 +660,18 @@ pub fn supervise(engine: &dyn Engine, tier: Tier, vseed: u64) -> RunOutcome {
                     }
                 }
             }
-            Err(mpsc::RecvTimeoutError::Timeout) => {}
+            Err(mpsc::RecvTimeoutError::Timeout) => idle = true,
             Err(mpsc::RecvTimeoutError::Disconnected) => break,
         }
-        // watchdog
+        // watchdog: only when every message read so far has been processed, and
+        // judged by when the reader thread last saw a line from the worker
         for wi in 0..ws.len() {
-            if ws[wi].done {
+            if ws[wi].done || !idle {
                 continue;
             }
-            if ws[wi].last_progress.elapsed() > watchdog {
+            let last = ws[wi].activity.load(std::sync::atomic::Ordering::Relaxed);
+            let silent = (t0.elapsed().as_millis() as u64).saturating_sub(last);
+            if silent > watchdog.as_millis() as u64 && ws[wi].last_progress.elapsed() > watchdog {
                 let _ = ws[wi].child.kill();
                 let _ = ws[wi].child.wait();
                 ws[wi].gen += 1;
@@ -619,8 +680,14 @@ pub fn supervise(engine: &dyn Engine, tier: Tier, vseed: u64) -> RunOutcome {
                     let next = k + step;
                     if next < n_cases {
                         let g = ws[wi].gen;
-                        ws[wi].child =
-                            spawn_worker(prop, tier, vseed, next, step, n_cases, wi, g, &tx);
+                        let act = ws[wi].activity.clone();
+                        act.store(
+                            t0.elapsed().as_millis() as u64,
+                            std::sync::atomic::Ordering::Relaxed,
+                        );
+                        ws[wi].child = spawn_worker(
+                            prop, tier, vseed, next, step, n_cases, wi, g, &tx, act, t0,
+                        );
                         ws[wi].current = None;
                         ws[wi].last_progress = Instant::now();
                         continue;
@@ -906,7 +973,11 @@ fn replay_in_child(path: &std::path::Path, watchdog: Duration) -> bool {
 
 /// `--replay <file>`: re-run exactly that case. Exit 1 if the recorded
 /// violation class reproduces, 0 if not, 2 on a harness error.
-pub fn replay_file(path: &str, quiet: bool, get_engine: &dyn Fn(&str) -> Option<Box<dyn Engine>>) -> i32 {
+pub fn replay_file(
+    path: &str,
+    quiet: bool,
+    get_engine: &dyn Fn(&str) -> Option<Box<dyn Engine>>,
+) -> i32 {
     install_panic_hook();
     let Ok(s) = std::fs::read_to_string(path) else {
         eprintln!("cannot read {path}");
@@ -923,18 +994,19 @@ pub fn replay_file(path: &str, quiet: bool, get_engine: &dyn Fn(&str) -> Option<
     };
     let class = doc["class"].as_str().unwrap_or("").to_string();
     let mut stats = Stats::default();
+    let cpu_limit = engine.info().cpu_limit_s;
     if class == "hang" {
         // the recorded violation is a hang: it reproduces when the CPU limit fires
         let msg = if quiet {
             String::new()
         } else {
-            format!("replay: CPU-time limit of {CASE_CPU_LIMIT_S} s reached\nVIOLATION property={prop} replay={path}\n")
+            format!("replay: CPU-time limit of {cpu_limit} s reached\nVIOLATION property={prop} replay={path}\n")
         };
         unsafe {
             REPLAY_HANG_MSG = Some(msg.into_bytes());
         }
     }
-    arm_cpu_timer(CASE_CPU_LIMIT_S);
+    arm_cpu_timer(cpu_limit);
     let vs = if doc["case"].is_null() {
         // regenerate from (seed, index); a crash or hang reproduces by itself
         let k = doc["case_index"].as_u64().unwrap_or(0);
